@@ -237,6 +237,7 @@ type c25aReplay struct {
 	Other  c25aSend    `json:"other_send"`
 	Tamper *c25aTamper `json:"tamper,omitempty"`
 	Edge   bool        `json:"edge_bits_only,omitempty"`
+	Calls  []c25aCall  `json:"calls,omitempty"` // kind "retention" (c25_adapter_retain_test.go)
 }
 
 // c25aDecode feeds wire bytes to a fresh adapter on a fresh encrypted session.
@@ -388,6 +389,11 @@ func TestVerifC25Adapter(t *testing.T) {
 			r.HarnessError("replay: %v", err)
 			return
 		}
+		if rp.Kind == "retention" {
+			c25aRetainReplay(r, rp)
+			r.Sample(rp)
+			return
+		}
 		e := r.NewEnum("replay")
 		switch rp.Kind {
 		case "recv":
@@ -409,6 +415,9 @@ func TestVerifC25Adapter(t *testing.T) {
 		r.Sample(rp)
 		return
 	}
+
+	// call sequences on one adapter with retained results: first, on the fresh process state
+	c25aRetainSection(r)
 
 	keySets := c25aKeySets[:ev.Pick(r, 2, 3)]
 	menu := c25aMenu(th)
